@@ -28,7 +28,7 @@ class Engine(BaseEngine):
     profiles = ("debug", "release")
     rule = ("malformed stream, deliberately structured: for seed texts (events, filters, tag arrays, hex strings, addresses) - EVERY prefix, "
             "every single-byte substitution by each of {00 22 5C 7F 80 C3 FF ] } , E2 F4 F7} (sampled in quick), every single-byte deletion, "
-            "unknown members nested 1..200000 levels deep (arrays, objects, unbalanced), filters with hundreds of members (tag fields of all 52 letters, look-alike #-keys, unknown members), digit runs of 1..40, every output length 0..needed+16 "
+            "unknown members nested 1..200000 levels deep (arrays, objects, unbalanced), filters with hundreds of members (tag fields of all 52 letters, look-alike #-keys, unknown members), complete filters shorter than one hex field that carry ids/authors of 0..129 hex digits, digit runs of 1..40, every output length 0..needed+16 "
             "for complete texts, random byte strings; entry points event/filter/tags from JSON, json_unescape, json_escape, Id/Pubkey/Sig hex, "
             "Addr::try_from_bytes; both build profiles; 64 guard bytes each side of every output buffer. oracle: never panics/aborts/hangs, "
             "consumed <= input length, guards intact, accepted values survive all accessors/serialisers. "
@@ -81,6 +81,14 @@ class Engine(BaseEngine):
                 out.append(("tags-" + cls, "tagsjson %s n:400 n:0" % C.tb(v)))
             for ol in range(0, 120):
                 out.append(("tags-outlen", "tagsjson %s %s n:0" % (C.tb(text), C.tn(ol))))
+        # complete filters SHORTER than one hex field (64 bytes for an id / author) that nevertheless carry ids / authors:
+        # length arithmetic on the whole input (input.len() - 64) is only exercised when the input is this short
+        for name in (b"ids", b"authors"):
+            for k in (0, 1, 2, 3, 10, 31, 40, 45, 46, 47, 48, 49, 50, 60, 62, 63, 64, 65, 66, 100, 126, 127, 128, 129):
+                h = (b"0123456789abcdef" * 9)[:k]
+                for t in (b'{"' + name + b'":["' + h + b'"]}', b'{"' + name + b'":["' + h + b'"', b'{ "' + name + b'" : [ "' + h + b'" ] }',
+                          b'{"kinds":[1],"' + name + b'":["' + h + b'","' + h + b'"]}', b'{"' + name + b'":["' + h + b'"],"limit":1}'):
+                    out.append(("fl-short-hex", "fljson %s n:%d n:170" % (C.tb(t), rng.choice([64, 200, 2000]))))
         base_ev = events[-1][0]
         # tokenizer desynchronisation: a UTF-8 lead byte right before a closing quote makes the byte-wise counting pass
         # (count_tags / burn_string) and the code-point-wise reading pass (json_unescape) see different string ends;
